@@ -4,7 +4,7 @@ from pyvc import prims as U
 from pyvc.logic import (Rope, as_rope, is_sym, land, lor, lnot, implies, iff, eq, to_be, ite, seg)
 from pyvc.engine import Ref, HObj, HList
 from pyvc.verify import NS
-from .common import (spec_prv_ckd_terms, spec_pub_ckd_terms, N, HARD, repo, sym_prv_node, sym_pub_node, ser32, ser256, serP, field,
+from .common import (is_obj, spec_prv_ckd_terms, spec_pub_ckd_terms, N, HARD, repo, sym_prv_node, sym_pub_node, ser32, ser256, serP, field,
                      fingerprint_of_point)
 
 CONTRACTS = []
@@ -18,7 +18,7 @@ def contract(cls):
 def child_clauses(c, I, out, cls, key_expected, cc_expected):
     """what BIP32 says about the freshly built child node object + the frame on self.children"""
     v = out.value
-    isnew = isinstance(v, Ref) and v.oid not in c.entry_snapshot and isinstance(c.deref(v), HObj)
+    isnew = isinstance(v, Ref) and v.oid not in c.entry_snapshot and is_obj(c, v)
     yield "ensures.child_is_new_node", isnew
     if not isnew:
         return
